@@ -140,20 +140,29 @@ let sc_reader c =
 
 let sc_merger c =
   let n = rrange c.st 1 4 in
+  c.rops_on <- true;
+  let mid = n_of_int in
   let rs = List.init n (fun i -> let p = mk_table c (Printf.sprintf "m%d.mtbl" i) (rrange c.st 1 100) in
-                         let r = Rd.c_reader_init p false false in (r, create c (KReader true))) in
+                         let r = Rd.c_reader_init p false false in
+                         let id = create c (KReader true) in
+                         rop c (RReaderInit (mid id, true, RdOk)); (r, id)) in
   let mc = Mg.c_merge_clos_new 1 (if rint c.st 4 = 0 then rrange c.st 1 5 else 0) in
   let m = Mg.c_merger_init mc 0 in
-  List.iter (fun (r, _) -> Mg.c_merger_add_source m (Rd.c_reader_source r)) rs;
+  let mgid = 3000 in
+  rop c (RMergerInit (mid mgid));
+  List.iter (fun (r, id) -> Mg.c_merger_add_source m (Rd.c_reader_source r); rop c (RMergerAddSource (mid mgid, mid id))) rs;
   observe c "merger_init" ~threads_exact:true;
   let msrc = Mg.c_merger_source m in
   let its = List.init (rrange c.st 1 3) (fun i ->
     let it = if i = 0 then Rd.c_source_iter msrc else Rd.c_source_get_range msrc "k0002" "k0030" in
-    for _ = 1 to rint c.st 40 do ignore (Rd.c_iter_next it) done; it) in
+    let iid = 3100 + i in
+    (* the outcome tree only matters for heap objects, which are not observed per step: every source non-NULL and filled *)
+    rop c (RSourceIter (mid iid, mid mgid, (if i = 0 then QIter else QRange), Ioc (it <> 0n, true, List.map (fun _ -> Ioc (true, true, [])) rs)));
+    for _ = 1 to rint c.st 40 do ignore (Rd.c_iter_next it); rop c (RIterNext (mid iid)) done; (it, iid)) in
   observe c "merger_iterators(undrained, maybe failing merge)" ~threads_exact:true;
-  List.iter (fun it -> if it <> 0n then Rd.c_iter_destroy it) its;
-  Mg.c_merger_destroy m; Mg.c_merge_clos_free mc;
-  List.iter (fun (r, id) -> Rd.c_reader_destroy r; destroy c id) rs;
+  List.iter (fun (it, iid) -> if it <> 0n then Rd.c_iter_destroy it; rop c (RIterDestroy (mid iid))) its;
+  Mg.c_merger_destroy m; Mg.c_merge_clos_free mc; rop c (RMergerDestroy (mid mgid));
+  List.iter (fun (r, id) -> Rd.c_reader_destroy r; destroy c id; rop c (RReaderDestroy (mid id))) rs;
   observe c "merger_destroy" ~threads_exact:true
 
 let sc_sorter c =
@@ -211,11 +220,17 @@ let sc_sorter_final_flush_fails c =
   let mc = Mg.c_merge_clos_new 1 (rrange c.st 1 3) in
   let s = So.c_sorter_init 100000000 c.spill mc 0n in
   let sid = create c (KSorter (false, N0)) in
-  for i = 0 to rrange c.st 8 40 do ignore (So.c_sorter_add s (Printf.sprintf "k%d" (i mod 3)) (Printf.sprintf "a%d" i)) done;
+  c.rops_on <- true;
+  let mid = n_of_int in
+  rop c (RSorterInit (mid sid, None));
+  for i = 0 to rrange c.st 8 40 do ignore (So.c_sorter_add s (Printf.sprintf "k%d" (i mod 3)) (Printf.sprintf "a%d" i)); rop c (RSorterAdd (mid sid, None, false)) done;
   let it = So.c_sorter_iter s in
   if it <> 0n then Rd.c_iter_destroy it;
+  (* everything was buffered; the merge callback fails inside the final flush: mtbl_sorter_iter returns NULL *)
+  rop c (RSorterIter (mid 4000, mid sid, [ CWrite; CMergeFail ], oc_default, false));
+  if it <> 0n then rop c (RIterDestroy (mid 4000));
   observe c "sorter_iter(final flush fails)" ~threads_exact:true;
-  So.c_sorter_destroy s; destroy c sid; Mg.c_merge_clos_free mc;
+  So.c_sorter_destroy s; destroy c sid; Mg.c_merge_clos_free mc; rop c (RSorterDestroy (mid sid));
   observe c "sorter_destroy" ~threads_exact:true
 
 (* mtbl_sorter_write into a writer that already holds a greater key: the add is refused, the
@@ -368,14 +383,25 @@ let sc_seeks c =
   let mc = Mg.c_merge_clos_new 1 0 in
   let s = So.c_sorter_init (if rbool c.st then 1 else 300) c.spill mc 0n in
   let sid = create c (KSorter (false, N0)) in
-  for i = 0 to rrange c.st 5 80 do ignore (So.c_sorter_add s (Printf.sprintf "k%03d" (rint c.st 50)) (Printf.sprintf "a%d" i)) done;
+  c.rops_on <- true;
+  let mid = n_of_int in
+  rop c (RSorterInit (mid sid, None));
+  for i = 0 to rrange c.st 5 80 do
+    let before = So.c_mkstemp_count () in
+    ignore (So.c_sorter_add s (Printf.sprintf "k%03d" (rint c.st 50)) (Printf.sprintf "a%d" i));
+    (* a spill is visible as a new mkstemp call *)
+    rop c (RSorterAdd (mid sid, (if So.c_mkstemp_count () > before then Some [ CWrite ] else None), false))
+  done;
+  let before = So.c_mkstemp_count () in
   let it = So.c_sorter_iter s in
-  update c sid (KSorter (false, n_of_int (So.c_mkstemp_count ())));
+  let nchunks = So.c_mkstemp_count () in
+  rop c (RSorterIter (mid 4100, mid sid, (if nchunks > before then [ CWrite ] else []), Ioc (it <> 0n, true, List.init nchunks (fun _ -> Ioc (true, true, []))), false));
+  update c sid (KSorter (false, n_of_int nchunks));
   observe c "sorter_iter" ~threads_exact:true;
-  List.iter (fun k -> ignore (Rd.c_iter_seek it k); for _ = 1 to rint c.st 4 do ignore (Rd.c_iter_next it) done) [ "k030"; "k010"; "zzz"; ""; "k049" ];
+  List.iter (fun k -> ignore (Rd.c_iter_seek it k); rop c (RIterSeek (mid 4100)); for _ = 1 to rint c.st 4 do ignore (Rd.c_iter_next it); rop c (RIterNext (mid 4100)) done) [ "k030"; "k010"; "zzz"; ""; "k049" ];
   observe c "sorter iterator sought 5 times" ~threads_exact:true;
-  if it <> 0n then Rd.c_iter_destroy it;
-  So.c_sorter_destroy s; destroy c sid; Mg.c_merge_clos_free mc;
+  if it <> 0n then (Rd.c_iter_destroy it; rop c (RIterDestroy (mid 4100)));
+  So.c_sorter_destroy s; destroy c sid; Mg.c_merge_clos_free mc; rop c (RSorterDestroy (mid sid));
   observe c "sorter_destroy" ~threads_exact:true
 
 let scenarios = [| ("writer", sc_writer); ("reader", sc_reader); ("merger", sc_merger); ("sorter", sc_sorter); ("fileset", sc_fileset); ("sorter_final_flush_fails", sc_sorter_final_flush_fails); ("sorter_write_refused", sc_sorter_write_refused); ("fileset_long", sc_fileset_long); ("writer_path", sc_writer_path); ("fileset_kinds", sc_fileset_kinds); ("seeks", sc_seeks) |]
